@@ -54,6 +54,8 @@ ORIG_EXPECT = [
     ("C17", "R17.1", "update_working_tree"), ("C17", "R17.1", "apply_included_paths"),
     ("C19", "R19.1", "pkt_line"), ("C19", "R19.4", "_read_side_band64k_data"), ("C19", "R19.5", "read_pkt_seq"),
     ("C20", "R20.1", "_escape_value"), ("C20", "R20.2", "_format_string"), ("C20", "R20.3", "_strip_comments"),
+    ("C11", "R11.5", "_encode_varint"), ("C11", "R11.5", "_decompress_path_from_stream"), ("C19", "R19.2", "read_pkt_line"),
+    ("C13", "R13.3", "_find_lcas"), ("C20", "R20.5", "_escape_value"), ("C06", "R06.5", "DiskRefsContainer.set_if_equals"),
 ]
 
 
